@@ -15,6 +15,7 @@ pub mod c10;
 pub mod c12;
 pub mod c13;
 pub mod c16;
+pub mod c17;
 pub mod c19;
 pub mod smoke;
 
@@ -32,6 +33,7 @@ pub fn run(id: &str, tier: Tier) -> i32 {
         "C12" => c12::run(tier),
         "C13" => c13::run(tier),
         "C16" => c16::run(tier),
+        "C17" => c17::run(tier),
         "C19" => c19::run(tier),
         "SMOKE" => smoke::run(),
         _ => {
@@ -55,6 +57,7 @@ pub fn replay(id: &str, file: &Path) -> i32 {
         "C12" => c12::replay(file),
         "C13" => c13::replay(file),
         "C16" => c16::replay(file),
+        "C17" => c17::replay_file(file),
         "C19" => c19::replay(file),
         _ => {
             eprintln!("harness error: no check for {id}");
